@@ -17,7 +17,7 @@ Const(N, v) == [i \in 1..N |-> v]
 
 Base(N, g) == [n |-> N, links |-> g, kind |-> Const(N, "pb"), ident |-> Const(N, FALSE), aliasOf |-> Const(N, 0),
                loc |-> Const(N, TRUE), fok |-> Const(N, TRUE), mode |-> "dag", locality |-> FALSE,
-               trk |-> "map", cap |-> 0, roots |-> <<1>>, stop |-> 0]
+               trk |-> "map", cap |-> 0, roots |-> <<1>>, stop |-> 0, cached |-> FALSE]
 
 RootSeqs(N) == {<<1>>} \cup {<<r, 1>> : r \in 2..N} \cup {<<1, 1>>}
 Shapes(N, Roots, Stops, Trks) ==
@@ -37,11 +37,14 @@ AliasCases == {[Base(4, g) EXCEPT !.aliasOf = <<0, 0, 2, 0>>, !.trk = tk] :
 BloomCases == {[Base(1, <<<<>>>>) EXCEPT !.roots = <<>>, !.trk = "bloom", !.cap = cp] : cp \in {1, 2}}
              \cup {[Base(1, <<<<>>>>) EXCEPT !.roots = <<>>, !.trk = "map"]}
 
-MQuick    == Shapes(4, RootSeqs(4), {0, 2}, {"map", "none"}) \cup AttrFam(3, {<<1>>}) \cup AliasCases
+\* a fetcher that memoises its link slices matters when nodes are fetched more than once: no tracker
+CachedCases == {[c EXCEPT !.cached = TRUE] : c \in Shapes(4, {<<1>>, <<1, 1>>, <<2, 1>>}, {0}, {"none"})}
+
+MQuick    == Shapes(4, RootSeqs(4), {0, 2}, {"map", "none"}) \cup AttrFam(3, {<<1>>}) \cup AliasCases \cup CachedCases
 MThorough == Shapes(5, {<<1>>, <<3, 1>>}, {0, 3}, {"map"}) \cup AttrFam(3, {<<1>>, <<2, 1>>}) \cup AliasCases
-GQuickE   == Shapes(4, {<<1>>, <<2, 1>>, <<1, 1>>}, {0, 2}, {"map", "bloom"}) \cup AttrFam(3, {<<1>>}) \cup AliasCases
+GQuickE   == Shapes(4, {<<1>>, <<2, 1>>, <<1, 1>>}, {0, 2}, {"map", "bloom"}) \cup AttrFam(3, {<<1>>}) \cup AliasCases \cup CachedCases
 GThoroughE == Shapes(5, {<<1>>, <<3, 1>>}, {0, 3}, {"map"}) \cup Shapes(4, RootSeqs(4), {0, 2}, {"map", "bloom", "cidset", "none"})
-              \cup AttrFam(3, {<<1>>, <<2, 1>>}) \cup AliasCases
+              \cup AttrFam(3, {<<1>>, <<2, 1>>}) \cup AliasCases \cup CachedCases
 \* the dedup counter is the only unbounded variable of the tracker-driver configurations
 BloomBound == dedup <= 2
 =============================================================================
